@@ -26,8 +26,18 @@
 (*                                                                         *)
 (* Outpoints: <<t, i>> with t >= 1: output i of TxU[t]; t = 0: base coin i *)
 (* (coinbase of a base block); <<99, 1>>: an outpoint that never exists.   *)
-(* Later extensions (C27/C29/C55: TRUC, ephemeral dust, packages, trimming,*)
-(* persistence) hook into Verdict (per-rule sections) and add actions.     *)
+(* C27/C29/C55 add: standardness (Ext.std), TRUC (version 3) topology,     *)
+(* ephemeral dust, cluster size limit, the mempool size limit with         *)
+(* TrimToSize / GetMinFee, and the actions                                 *)
+(*   SubmitPackage(pkg) ProcessNewPackage(pkg, test_accept=false)          *)
+(*   MarkUnb(t)        CTxMemPool::AddUnbroadcastTx                        *)
+(*   Dump              DumpMempool                                         *)
+(*   Load(cut, exist)  a second node on the same chain submits `exist`     *)
+(*                     and calls LoadMempool on the (damaged) file; the    *)
+(*                     behaviour continues on that node                    *)
+(*   Prefill           a fixed sequence of Submit calls as first step      *)
+(* Transactions with the same txid and different witnesses ("twins",       *)
+(* universe field twin) are different pool members that never coexist.     *)
 (***************************************************************************)
 EXTENDS Integers, Sequences, FiniteSets, TLC, VF, IOUtils
 CONSTANTS TxU,        \* Seq of [ins : Seq([op, seq]), outs : Seq([v, cls]), ver, lock]
@@ -43,13 +53,23 @@ CONSTANTS TxU,        \* Seq of [ins : Seq([op, seq]), outs : Seq([v, cls]), ver
           MinRelay, IncrRelay,  \* -minrelaytxfee / -incrementalrelayfee in sat/kvB
           Expiry,               \* mempool expiry in seconds
           MaxReplClusters,      \* MAX_REPLACEMENT_CANDIDATES (Rule 5, counted in clusters)
-          MaxClusterCount       \* cluster count limit
+          MaxClusterCount,      \* cluster count limit
+          Ext                   \* scenario extensions, see module UniCommon
 \* measured by the harness from the real, signed universe: Meas[t] = [fee, vsize, weight]
 Meas == ndJsonDeserialize(IOEnv.MP_MEASURE)
 Maturity == 100
 \* TLC re-evaluates a constant that the configuration substitutes by a definition (TxU <- TxUDef) at EVERY reference; a
 \* constant-level definition is evaluated once. All substituted constants are therefore used through these aliases.
-TXU == TxU
+\* a twin is its original in everything but the witness
+TXU == [t \in 1..Len(TxU) |-> IF TxU[t].twin # 0 THEN [TxU[TxU[t].twin] EXCEPT !.twin = TxU[t].twin] ELSE TxU[t]]
+EXT == Ext
+STD == EXT.std
+MAXCLW == IF EXT.maxclsize = 0 THEN 404000 ELSE 4 * EXT.maxclsize      \* cluster size limit in weight units
+MAXMEM == EXT.maxmempool
+PKGS_ == EXT.pkgs
+CUTS_ == EXT.cuts
+EXISTS_ == EXT.exist
+UNBS_ == EXT.unbs
 BASEC == BaseCoins
 LISTS_ == Lists
 REORGS_ == ReorgPairs
@@ -65,10 +85,13 @@ VARIABLES pool,    \* set of tx ids in the mempool
           chain,   \* Seq of [txs, dt]: blocks connected on top of the base tip
           utxo,    \* confirmed UTXO set: outpoint -> [v, h, cb]
           now,     \* mock time, seconds since the start
-          ctr,     \* bounds: [blk, disc, reorg, prio, tick, exp]
+          mf,      \* rolling minimum feerate [r: sat/kvB, b: a block was connected since the last bump]
+          unb,     \* pool members marked unbroadcast
+          file,    \* the last dump [saved, recs: Seq([t, time, d]), stray: {[t, d]}, unb]
+          ctr,     \* bounds: [blk, disc, reorg, prio, tick, exp, pkg, unb, dump, load, pre]
           lastAct, lastRes
-state == <<pool, delta, etime, chain, utxo, now>>
-View0 == <<pool, delta, etime, chain, now, ctr>>
+state == <<pool, delta, etime, chain, utxo, now, mf, unb, file>>
+View0 == <<pool, delta, etime, chain, now, mf, unb, file, ctr>>
 vars == <<state, ctr, lastAct, lastRes>>
 
 \* ------------------------------------------------------------------ transactions
@@ -77,9 +100,15 @@ NIn(t) == Len(TXU[t].ins)
 InOp(t, j) == TXU[t].ins[j].op
 Spendable(cls) == cls # "opret"
 \* per-transaction tables, evaluated once (TLCEval forces the function; an unevaluated one recomputes at every application)
+\* twins: TID_[t] is the transaction that stands for t's txid (outpoints are always written with it), TWINS_[t] all
+\* transactions with t's txid. INTX_ (the parents) is closed under twins, so that the graph operators below need not know.
+TID_ == TLCEval([t \in TxIds |-> IF TXU[t].twin # 0 THEN TXU[t].twin ELSE t])
+TWINS_ == TLCEval([t \in TxIds |-> {x \in TxIds : TID_[x] = TID_[t]}])
+TW(id) == IF id \in TxIds THEN TWINS_[id] ELSE {id}
 INS_ == TLCEval([t \in TxIds |-> {InOp(t, j) : j \in 1..NIn(t)}])
-INTX_ == TLCEval([t \in TxIds |-> {InOp(t, j)[1] : j \in 1..NIn(t)}])
-OUTS_ == TLCEval([t \in TxIds |-> {<<t, i>> : i \in {i \in 1..Len(TXU[t].outs) : Spendable(TXU[t].outs[i].cls)}}])
+INTID_ == TLCEval([t \in TxIds |-> {InOp(t, j)[1] : j \in 1..NIn(t)}])
+INTX_ == TLCEval([t \in TxIds |-> UNION {TW(InOp(t, j)[1]) : j \in 1..NIn(t)}])
+OUTS_ == TLCEval([t \in TxIds |-> {<<TID_[t], i>> : i \in {i \in 1..Len(TXU[t].outs) : Spendable(TXU[t].outs[i].cls)}}])
 DUP_ == TLCEval([t \in TxIds |-> Cardinality({InOp(t, j) : j \in 1..NIn(t)}) # NIn(t)])
 InsSet(t) == INS_[t]
 InTxs(t) == INTX_[t]
@@ -93,7 +122,14 @@ OutVal(t) == SumS([i \in 1..Len(TXU[t].outs) |-> TXU[t].outs[i].v])
 Fee(t) == Meas[t].fee
 VSize(t) == Meas[t].vsize
 Weight(t) == Meas[t].weight
-MFee(D, t) == Fee(t) + D[t]
+MFee(D, t) == Fee(t) + D[TID_[t]]              \* prioritisation is by txid
+V3(t) == TXU[t].ver = 3
+\* dust (policy.cpp GetDustThreshold at the default 3000 sat/kvB): witness programs 67 input bytes, others 148
+DustLimit(cls) == CASE cls \in {"wtrue", "wdrop", "wbig"} -> 330 [] cls = "anchor" -> 240 [] cls = "opret" -> 0
+                    [] cls = "true" -> 474 [] cls = "nopx" -> 477 [] cls = "fail" -> 480 [] cls = "cltv" -> 489 [] cls = "key" -> 576 [] OTHER -> 546
+DUST_ == TLCEval([t \in TxIds |-> {<<TID_[t], i>> : i \in {i \in 1..Len(TXU[t].outs) : TXU[t].outs[i].v < DustLimit(TXU[t].outs[i].cls)}}])
+DustOuts(t) == DUST_[t]
+MEM_ == TLCEval([t \in TxIds |-> Meas[t].mem])
 \* script class of the output an input spends: base coins are pay-to-pubkey (signed by the harness)
 ClsOf(o) == IF o[1] >= 1 /\ o[1] # 99 THEN TXU[o[1]].outs[o[2]].cls ELSE "key"
 Max(a, b) == IF a > b THEN a ELSE b
@@ -259,39 +295,90 @@ DiagramOf(P, D, Cs) ==
 \* ------------------------------------------------------------------ replacement (policy/rbf.cpp, MemPoolAccept::ReplacementChecks)
 Direct(P, t) == {c \in P : InsSet(c) \cap InsSet(t) # {}}
 Evicted(P, t) == DescOf(P, Direct(P, t))
-\* main-side clusters: those losing a transaction or absorbing the new one (through its surviving parents); staging side:
-\* what becomes of them. ev = Evicted(P, t)
-ImprovesDiagramE(P, D, t, ev) ==
-  LET oldCs == ClustersOf(P, ev \cup (ParentsIn(P, t) \ ev))
-      newP == (P \ ev) \cup {t}
-      newCs == ClustersOf(newP, (UNION oldCs \ ev) \cup {t})
+\* main-side clusters: those losing a transaction or absorbing a new one (through its surviving parents); staging side:
+\* what becomes of them. N = the new transactions, ev = what they evict
+ImprovesDiagramN(P, D, N, ev) ==
+  LET oldCs == ClustersOf(P, ev \cup (UNION {ParentsIn(P, t) : t \in N} \ ev))
+      newP == (P \ ev) \cup N
+      newCs == ClustersOf(newP, (UNION oldCs \ ev) \cup N)
   IN StrictlyBetter(DiagramOf(newP, D, newCs), DiagramOf(P, D, oldCs))
+ImprovesDiagramE(P, D, t, ev) == ImprovesDiagramN(P, D, {t}, ev)
 ImprovesDiagram(P, D, t) == ImprovesDiagramE(P, D, t, Evicted(P, t))
 NoDbg == [m3 |-> 0, m4 |-> 0, nc |-> 0]
 
+\* ------------------------------------------------------------------ limits, standardness, TRUC, ephemeral dust
+\* txgraph oversize test for the clusters that contain the transactions S of pool graph P
+ClusterOK(P, S) == \A Cl \in ClustersOf(P, S) : Cardinality(Cl) <= MaxClusterCount /\ SumF([x \in TxIds |-> Weight(x)], Cl) <= MAXCLW
+\* IsStandardTx on what the universes vary: version, size, output script classes, at most one dust output
+StdCls == {"key", "wtrue", "wdrop", "wbig", "anchor", "opret"}
+StdTxWhy(t) == IF TXU[t].ver < 1 \/ TXU[t].ver > 3 THEN "version"
+               ELSE IF Weight(t) > 400000 THEN "tx-size"
+               ELSE IF \E i \in 1..Len(TXU[t].outs) : TXU[t].outs[i].cls \notin StdCls THEN "scriptpubkey"
+               ELSE IF Cardinality(DustOuts(t)) > 1 THEN "dust" ELSE "ok"
+\* CTxMemPool::GetMinFee between blocks / after a block (without the time decay: scenarios that trim do not advance the clock)
+MinFeeOf(MF) == IF MF.r = 0 THEN 0 ELSE IF ~MF.b THEN MF.r ELSE Max(MF.r, IncrRelay)
+\* policy/truc_policy.cpp SingleTRUCChecks: ok, or a violation, or a violation that names the sibling whose eviction may be tried.
+\* dc = the transactions that t conflicts with by inputs
+TrucOK == [ok |-> TRUE, sib |-> 0]
+TrucBad == [ok |-> FALSE, sib |-> 0]
+TrucSingle(P, t, dc) ==
+  LET par == ParentsIn(P, t) IN
+  IF \E p \in par : V3(p) # V3(t) THEN TrucBad                       \* TRUC and non-TRUC do not mix
+  ELSE IF ~V3(t) THEN TrucOK
+  ELSE IF VSize(t) > 10000 THEN TrucBad                               \* TRUC_MAX_VSIZE
+  ELSE IF Cardinality(par) + 1 > 2 THEN TrucBad                      \* TRUC_ANCESTOR_LIMIT
+  ELSE IF par = {} THEN TrucOK
+  ELSE LET p == CHOOSE x \in par : TRUE
+           desc == DescOf(P, {p}) \ {p}
+       IN IF Cardinality(AncOf(P, {p})) + 1 > 2 THEN TrucBad
+          ELSE IF VSize(t) > 1000 THEN TrucBad                        \* TRUC_CHILD_MAX_VSIZE
+          ELSE IF desc # {} /\ desc \cap dc = {}                      \* the parent has a child that is not going to be replaced
+               THEN IF Cardinality(desc) = 1 /\ Cardinality(AncOf(P, desc)) = 2
+                    THEN [ok |-> FALSE, sib |-> CHOOSE x \in desc : TRUE] ELSE TrucBad
+          ELSE TrucOK
+\* ephemeral_policy.cpp CheckEphemeralSpends for transaction t whose parents (in the pool or in the same package) are Par
+SpendsDustOf(t, Par) == \A p \in Par : DustOuts(p) \subseteq InsSet(t)
+
 \* ------------------------------------------------------------------ acceptance verdict (validation.cpp, MemPoolAccept) in the code's order
-Res(ok, why, ev, dbg) == [ok |-> ok, why |-> why, evict |-> ev, pure |-> TRUE, dbg |-> dbg]
+Res(ok, why, ev, dbg) == [ok |-> ok, why |-> why, evict |-> ev, pure |-> TRUE, dbg |-> dbg, trims |-> <<>>, tight |-> FALSE]
 Rej(why) == Res(FALSE, why, {}, NoDbg)
 NoneRes == Res(TRUE, "none", {}, NoDbg)
 ScriptsOK(t) == \A j \in 1..NIn(t) : ClsOf(InOp(t, j)) \notin PolicyInvalid
-Verdict(P, U, C, D, t, bypass) ==
-  \* ---- PreChecks
-  IF DupInputs(t) THEN Rej("bad-txns-inputs-duplicate")
-  ELSE IF ~FinalNext(C, t) THEN Rej("non-final")
-  ELSE IF t \in P THEN Rej("txn-already-in-mempool")
-  ELSE IF ~(InsSet(t) \subseteq Avail(P, U))
-       THEN IF OutsOf(t) \cap DOMAIN U # {} THEN Rej("txn-already-known") ELSE Rej("bad-txns-inputs-missingorspent")
-  ELSE IF ~SeqOKNext(C, t, [j \in 1..NIn(t) |-> CoinH(P, U, C, InOp(t, j))]) THEN Rej("non-BIP68-final")
+\* ---- PreChecks. X: outpoints made available by earlier transactions of the same package; pk: evaluated as part of a multi-
+\* transaction package (fee checks on the package feerate, no sibling eviction). Result: [ok, why, dc] with dc = the pool
+\* transactions to be replaced directly (input conflicts, and the TRUC sibling when its eviction is considered)
+PreBad(why) == [ok |-> FALSE, why |-> why, dc |-> {}]
+PreChk(P, U, C, D, MF, t, bypass, X, pk) ==
+  IF DupInputs(t) THEN PreBad("bad-txns-inputs-duplicate")
+  ELSE IF STD /\ StdTxWhy(t) # "ok" THEN PreBad(StdTxWhy(t))
+  ELSE IF ~FinalNext(C, t) THEN PreBad("non-final")
+  ELSE IF t \in P THEN PreBad("txn-already-in-mempool")
+  ELSE IF TWINS_[t] \cap P # {} THEN PreBad("txn-same-nonwitness-data-in-mempool")
+  ELSE IF ~(InsSet(t) \subseteq Avail(P, U) \cup X)
+       THEN IF OutsOf(t) \cap DOMAIN U # {} THEN PreBad("txn-already-known") ELSE PreBad("bad-txns-inputs-missingorspent")
+  ELSE IF ~SeqOKNext(C, t, [j \in 1..NIn(t) |-> CoinH(P, U, C, InOp(t, j))]) THEN PreBad("non-BIP68-final")
   ELSE IF \E j \in 1..NIn(t) : InOp(t, j) \in DOMAIN U /\ U[InOp(t, j)].cb /\ Height(C) + 1 - U[InOp(t, j)].h < Maturity
-       THEN Rej("bad-txns-premature-spend-of-coinbase")
-  ELSE IF SumS([j \in 1..NIn(t) |-> CoinV(P, U, InOp(t, j))]) < OutVal(t) THEN Rej("bad-txns-in-belowout")
-  ELSE IF ~bypass /\ MFee(D, t) < FeeAt(MinRelay, VSize(t)) THEN Rej("min relay fee not met")
-  ELSE IF Direct(P, t) = {}
-       THEN IF Cardinality(Cluster(P \cup {t}, {t})) > MaxClusterCount THEN Rej("too-large-cluster")
+       THEN PreBad("bad-txns-premature-spend-of-coinbase")
+  ELSE IF SumS([j \in 1..NIn(t) |-> CoinV(P, U, InOp(t, j))]) < OutVal(t) THEN PreBad("bad-txns-in-belowout")
+  ELSE IF STD /\ DustOuts(t) # {} /\ (Fee(t) # 0 \/ MFee(D, t) # 0) THEN PreBad("dust")          \* PreCheckEphemeralTx
+  ELSE IF ~bypass /\ ~pk /\ FeeAt(MinFeeOf(MF), VSize(t)) > 0 /\ MFee(D, t) < FeeAt(MinFeeOf(MF), VSize(t)) THEN PreBad("mempool min fee not met")
+  ELSE IF ~bypass /\ ~pk /\ MFee(D, t) < FeeAt(MinRelay, VSize(t)) THEN PreBad("min relay fee not met")
+  ELSE IF bypass THEN [ok |-> TRUE, why |-> "ok", dc |-> Direct(P, t)]
+  ELSE LET dc == Direct(P, t) tr == TrucSingle(P, t, dc) IN
+       IF tr.ok THEN [ok |-> TRUE, why |-> "ok", dc |-> dc]
+       ELSE IF tr.sib # 0 /\ ~pk THEN [ok |-> TRUE, why |-> "ok", dc |-> dc \cup {tr.sib}]
+       ELSE PreBad("TRUC-violation")
+\* ---- AcceptSingleTransaction
+Verdict(P, U, C, D, MF, t, bypass) ==
+  LET pr == PreChk(P, U, C, D, MF, t, bypass, {}, FALSE) IN
+  IF ~pr.ok THEN Rej(pr.why)
+  ELSE IF pr.dc = {}
+       THEN IF ~ClusterOK(P \cup {t}, {t}) THEN Rej("too-large-cluster")
+            ELSE IF ~bypass /\ STD /\ ~SpendsDustOf(t, ParentsIn(P, t)) THEN Rej("missing-ephemeral-spends")
             ELSE IF ~ScriptsOK(t) THEN Rej("script-failed")
             ELSE Res(TRUE, "ok", {}, NoDbg)
   ELSE \* ---- ReplacementChecks
-       LET direct == Direct(P, t)
+       LET direct == pr.dc
            ev == DescOf(P, direct)
            evfees == SumF([x \in TxIds |-> MFee(D, x)], ev)
            nc == Cardinality(ClustersOf(P, direct))
@@ -300,36 +387,90 @@ Verdict(P, U, C, D, t, bypass) ==
        IN IF nc > MaxReplClusters THEN rej("too many potential replacements")
           ELSE IF MFee(D, t) < evfees THEN rej("insufficient fee")                                    \* Rule 3
           ELSE IF MFee(D, t) - evfees < FeeAt(IncrRelay, VSize(t)) THEN rej("insufficient fee")      \* Rule 4
-          ELSE IF Cardinality(Cluster((P \ ev) \cup {t}, {t})) > MaxClusterCount THEN rej("too-large-cluster")
+          ELSE IF ~ClusterOK((P \ ev) \cup {t}, {t}) THEN rej("too-large-cluster")
           ELSE IF ~ImprovesDiagramE(P, D, t, ev) THEN rej("replacement-failed")
           \* the ancestors are taken in the pool as it is (before the replacement)
           ELSE IF AncOf(P, ParentsIn(P, t)) \cap direct # {} THEN rej("bad-txns-spends-conflicting-tx")
+          ELSE IF ~bypass /\ STD /\ ~SpendsDustOf(t, ParentsIn(P, t)) THEN rej("missing-ephemeral-spends")
           ELSE IF ~ScriptsOK(t) THEN rej("script-failed")
           ELSE Res(TRUE, "ok", ev, dbg)
 
 \* ------------------------------------------------------------------ pool maintenance
 NormT(P, ET) == [t \in TxIds |-> IF t \in P THEN ET[t] ELSE 0]
+ZeroF == [t \in TxIds |-> 0]
+NoMF == [r |-> 0, b |-> FALSE]
 \* CTxMemPool::Expire(T - Expiry): entries older than the cutoff go, with their descendants
 ExpireSet(P, ET, T) == DescOf(P, {e \in P : ET[e] < T - Expiry})
+\* ---- CTxMemPool::TrimToSize. Memory is measured per transaction by the harness (Meas[t].mem: what the entry adds to
+\* DynamicMemoryUsage) and taken as additive; a decision closer than Ext.margin to the limit is flagged (tight): there the
+\* real node may decide differently, the universe must be re-shaped.
+Usage(P) == SumF(MEM_, P)
+RECURSIVE MergeBackT(_)
+MergeBackT(ch) == IF Len(ch) < 2 THEN ch
+                  ELSE LET a == ch[Len(ch) - 1] b == ch[Len(ch)] IN
+                       IF Higher(b, a) THEN MergeBackT(Append(SubSeq(ch, 1, Len(ch) - 2), [f |-> a.f + b.f, s |-> a.s + b.s, txs |-> a.txs \cup b.txs])) ELSE ch
+RECURSIVE ChunksT(_, _)
+ChunksT(D, L) == IF L = <<>> THEN <<>>
+                 ELSE MergeBackT(Append(ChunksT(D, Front(L)), [f |-> MFee(D, L[Len(L)]), s |-> Weight(L[Len(L)]), txs |-> {L[Len(L)]}]))
+ClusterChunksT(P, D, Cl) ==
+  IF Cardinality(Cl) = 1 THEN LET t == CHOOSE x \in Cl : TRUE IN <<[f |-> MFee(D, t), s |-> Weight(t), txs |-> {t}]>>
+  ELSE LET Ls == {L \in Perms(Cl) : Topo(P, L)}
+           best == CHOOSE L \in Ls : \A M \in Ls : DiagGE(Cum(Chunks(D, L)), Cum(Chunks(D, M)))
+       IN ChunksT(D, best)
+\* GetWorstMainChunk: the chunk with the lowest feerate (the universes avoid ties)
+WorstChunk(P, D) ==
+  LET all == UNION {LET cs == ClusterChunksT(P, D, Cl) IN {cs[i] : i \in 1..Len(cs)} : Cl \in ClustersOf(P, P)}
+  IN CHOOSE c \in all : DescOf(P, c.txs) = c.txs /\ \A d \in all : ~Higher(c, d)
+\* the main order of the transaction graph (CompareMainOrder): chunks by decreasing feerate, a chunk's transactions in the order
+\* of their cluster's linearization; this is the order of infoAll() and therefore of the dump
+ClusterLin(P, D, Cl) ==
+  IF Cardinality(Cl) = 1 THEN <<CHOOSE x \in Cl : TRUE>>
+  ELSE LET Ls == {L \in Perms(Cl) : Topo(P, L)} IN CHOOSE L \in Ls : \A M \in Ls : DiagGE(Cum(Chunks(D, L)), Cum(Chunks(D, M)))
+TaggedChunks(P, D) ==
+  UNION {LET L == ClusterLin(P, D, Cl) cs == ChunksT(D, L) IN
+         {[c |-> cs[i], lin |-> SelectSeq(L, LAMBDA x : x \in cs[i].txs)] : i \in 1..Len(cs)} : Cl \in ClustersOf(P, P)}
+RECURSIVE SortTagged(_, _)
+SortTagged(P, S) ==
+  IF S = {} THEN <<>>
+  ELSE LET m == CHOOSE x \in S : /\ \A y \in S : ~Higher(y.c, x.c)
+                                  /\ UNION {ParentsIn(P, t) : t \in x.c.txs} \cap UNION {z.c.txs : z \in S \ {x}} = {}
+       IN m.lin \o SortTagged(P, S \ {m})
+MainOrder(P, D) == SortTagged(P, TaggedChunks(P, D))
+VSofW(w) == (w + 3) \div 4
+\* the feerate, in sat/kvB rounded down, that TrimToSize records for an evicted chunk: CFeeRate(fee, vsize) + incremental relay feerate
+TrimRate(c) == (c.f * 1000) \div VSofW(c.s) + IncrRelay
+RECURSIVE TrimR(_, _, _, _, _)
+TrimR(P, D, MF, acc, tight) ==
+  LET u == Usage(P)
+      t2 == tight \/ (P # {} /\ u - MAXMEM < EXT.margin /\ MAXMEM - u < EXT.margin)
+  IN IF P = {} \/ u <= MAXMEM THEN [p |-> P, mf |-> MF, trims |-> acc, tight |-> t2]
+     ELSE LET w == WorstChunk(P, D)
+              MF2 == IF TrimRate(w) > MF.r THEN [r |-> TrimRate(w), b |-> FALSE] ELSE MF      \* trackPackageRemoved
+          IN TrimR(P \ w.txs, D, MF2, Append(acc, w), t2)
+\* LimitMempoolSize: Expire, then TrimToSize
+LimitSize(P, ET, D, MF, T) ==
+  LET p1 == P \ ExpireSet(P, ET, T) IN
+  IF MAXMEM = 0 THEN [p |-> p1, mf |-> MF, trims |-> <<>>, tight |-> FALSE] ELSE TrimR(p1, D, MF, <<>>, FALSE)
 \* removeForBlock for one confirmed transaction: the entry itself (its descendants stay), then, input by input, whatever
 \* still spends that input, recursively; prioritisation of the transaction and of the direct conflicts found is cleared
 RECURSIVE RmConf(_, _, _, _)
 RmConf(P, D, t, j) ==
   IF j > NIn(t) THEN [p |-> P, d |-> D]
   ELSE LET cs == {c \in P : InOp(t, j) \in InsSet(c)}
-       IN RmConf(P \ DescOf(P, cs), [x \in TxIds |-> IF x \in cs THEN 0 ELSE D[x]], t, j + 1)
+           ct == {TID_[c] : c \in cs}
+       IN RmConf(P \ DescOf(P, cs), [x \in TxIds |-> IF x \in ct THEN 0 ELSE D[x]], t, j + 1)
 RECURSIVE RmBlock(_, _, _)
 RmBlock(P, D, txs) ==
   IF txs = <<>> THEN [p |-> P, d |-> D]
-  ELSE LET t == Head(txs) r == RmConf(P \ {t}, D, t, 1)
-       IN RmBlock(r.p, [r.d EXCEPT ![t] = 0], Tail(txs))
+  ELSE LET t == Head(txs) r == RmConf(P \ TWINS_[t], D, t, 1)        \* the entry is found by txid
+       IN RmBlock(r.p, [r.d EXCEPT ![TID_[t]] = 0], Tail(txs))
 \* MaybeUpdateMempoolForReorg on chain C / view U: the queue re-enters in order through AcceptToMemoryPool(bypass_limits);
 \* what fails takes its in-pool descendants with it; then removeForReorg (final, BIP68-final, mature; with descendants);
 \* then LimitMempoolSize (expiry)
 RECURSIVE ReAdd(_, _, _, _, _, _, _)
 ReAdd(P, ET, U, C, D, q, T) ==
   IF q = <<>> THEN [p |-> P, et |-> ET]
-  ELSE LET t == Head(q) v == Verdict(P, U, C, D, t, TRUE) IN
+  ELSE LET t == Head(q) v == Verdict(P, U, C, D, NoMF, t, TRUE) IN
        IF v.ok THEN ReAdd((P \ v.evict) \cup {t}, [ET EXCEPT ![t] = T], U, C, D, Tail(q), T)
        ELSE ReAdd(P \ (IF t \in P THEN DescOf(P, {t}) ELSE DescOf(P, ChildrenIn(P, t))), ET, U, C, D, Tail(q), T)
 StillOK(P, U, C, e) ==
@@ -342,40 +483,224 @@ AfterReorg(P, ET, U, C, D, q, T) ==
       p2 == p1 \ ExpireSet(p1, r.et, T)
   IN [p |-> p2, et |-> NormT(p2, r.et)]
 
+\* ------------------------------------------------------------------ packages (policy/packages.cpp, MemPoolAccept::AcceptPackage)
+SeqToSet(s) == {s[i] : i \in 1..Len(s)}
+\* IsTopoSortedPackage: no transaction spends an output of itself or of a later one; IsConsistentPackage: every transaction has an
+\* input and no outpoint is spent by two different transactions; IsChildWithParents: every transaction but the last is a parent of the last
+TopoSorted(pkg) == \A i \in 1..Len(pkg) : \A k \in i..Len(pkg) : TID_[pkg[k]] \notin INTID_[pkg[i]]
+ConsistentPkg(pkg) == /\ \A i \in 1..Len(pkg) : NIn(pkg[i]) > 0
+                      /\ \A i, k \in 1..Len(pkg) : i # k => InsSet(pkg[i]) \cap InsSet(pkg[k]) = {}
+ChildWithParents(pkg) == Len(pkg) >= 2 /\ \A i \in 1..Len(pkg) - 1 : TID_[pkg[i]] \in INTID_[pkg[Len(pkg)]]
+MaxPackageCount == 25
+MaxPackageWeight == 404000
+\* IsWellFormedPackage: "ok" or the reason of the first failing rule
+WFWhy(pkg) ==
+  IF Len(pkg) > MaxPackageCount THEN "package-too-many-transactions"
+  ELSE IF Len(pkg) > 1 /\ SumS([i \in 1..Len(pkg) |-> Weight(pkg[i])]) > MaxPackageWeight THEN "package-too-large"
+  ELSE IF Cardinality({TID_[pkg[i]] : i \in 1..Len(pkg)}) # Len(pkg) THEN "package-contains-duplicates"
+  ELSE IF ~TopoSorted(pkg) THEN "package-not-sorted"
+  ELSE IF ~ConsistentPkg(pkg) THEN "conflict-in-package"
+  ELSE "ok"
+\* what gates the evaluation of a submitted package
+GateWhy(pkg) == IF WFWhy(pkg) # "ok" THEN WFWhy(pkg)
+                ELSE IF Len(pkg) > 1 /\ ~ChildWithParents(pkg) THEN "package-not-child-with-parents" ELSE "ok"
+TR(k, why) == [k |-> k, why |-> why]
+\* failures after which a transaction is retried as part of the package: TX_RECONSIDERABLE (fee related) and TX_MISSING_INPUTS
+Retry == {"mempool min fee not met", "min relay fee not met", "insufficient fee", "replacement-failed", "bad-txns-inputs-missingorspent"}
+\* ---- first pass: every transaction on its own (AcceptSubPackage of one transaction, no LimitMempoolSize)
+RECURSIVE PkgPass(_, _, _, _, _, _, _, _)
+PkgPass(pkg, i, acc, U, C, D, MF, T) ==
+  IF i > Len(pkg) THEN acc
+  ELSE LET t == pkg[i] IN
+       IF t \in acc.p THEN PkgPass(pkg, i + 1, [acc EXCEPT !.res = Append(@, TR("entry", "ok"))], U, C, D, MF, T)
+       ELSE IF TWINS_[t] \cap acc.p # {} THEN PkgPass(pkg, i + 1, [acc EXCEPT !.res = Append(@, TR("diffwit", "ok"))], U, C, D, MF, T)
+       ELSE LET v == Verdict(acc.p, U, C, D, MF, t, FALSE) IN
+            IF v.ok THEN PkgPass(pkg, i + 1, [acc EXCEPT !.p = (@ \ v.evict) \cup {t}, !.et = [@ EXCEPT ![t] = T], !.ev = @ \cup v.evict,
+                                                         !.res = Append(@, TR("valid", "ok"))], U, C, D, MF, T)
+            ELSE IF Len(pkg) = 1 \/ v.why \notin Retry
+                 THEN PkgPass(pkg, i + 1, [acc EXCEPT !.quit = TRUE, !.res = Append(@, TR("invalid", v.why))], U, C, D, MF, T)
+            ELSE PkgPass(pkg, i + 1, [acc EXCEPT !.q = Append(@, t), !.res = Append(@, TR("invalid", v.why))], U, C, D, MF, T)
+\* ---- AcceptMultipleTransactions(txs): result [why: "ok" or the package-level reason, bad: index in txs of the transaction a
+\* result is reported for (0: none), badwhy, p: pool afterwards, ev: replaced]
+RECURSIVE MultiPre(_, _, _, _, _, _, _, _, _)
+MultiPre(P, U, C, D, MF, txs, i, X, dcs) ==
+  IF i > Len(txs) THEN [ok |-> TRUE, bad |-> 0, why |-> "ok", dcs |-> dcs]
+  ELSE LET pr == PreChk(P, U, C, D, MF, txs[i], FALSE, X, TRUE) IN
+       IF ~pr.ok THEN [ok |-> FALSE, bad |-> i, why |-> pr.why, dcs |-> dcs]
+       ELSE MultiPre(P, U, C, D, MF, txs, i + 1, X \cup OutsOf(txs[i]), Append(dcs, pr.dc))
+\* policy/truc_policy.cpp PackageTRUCChecks for txs[i]
+PkgTrucOK(P, txs, i) ==
+  LET t == txs[i]
+      par == ParentsIn(P, t)
+      ipar == {k \in 1..i - 1 : TID_[txs[k]] \in INTID_[t]}
+  IN IF V3(t)
+     THEN /\ Cardinality(par) + Cardinality(ipar) + 1 <= 2
+          /\ par # {} => Cardinality(AncOf(P, {CHOOSE x \in par : TRUE})) + Cardinality(ipar) + 1 <= 2
+          /\ (par # {} \/ ipar # {}) =>
+               LET ptid == IF par # {} THEN TID_[CHOOSE x \in par : TRUE] ELSE TID_[txs[CHOOSE k \in ipar : \A m \in ipar : k <= m]]
+                   pv3 == IF par # {} THEN V3(CHOOSE x \in par : TRUE) ELSE V3(txs[CHOOSE k \in ipar : \A m \in ipar : k <= m])
+               IN /\ VSize(t) <= 1000
+                  /\ pv3
+                  /\ \A k \in 1..Len(txs) : k # i => (ptid \notin INTID_[txs[k]] /\ TID_[t] \notin INTID_[txs[k]])
+                  /\ par # {} => Cardinality(DescOf(P, par)) = 1
+     ELSE /\ \A p \in par : ~V3(p)
+          /\ \A k \in ipar : ~V3(txs[k])
+MultiEval(P, U, C, D, MF, txs) ==
+  LET fail(w, b, bw) == [why |-> w, bad |-> b, badwhy |-> bw, p |-> P, ev |-> {}]
+      pre == MultiPre(P, U, C, D, MF, txs, 1, {}, <<>>)
+      N == SeqToSet(txs)
+      tv == SumS([i \in 1..Len(txs) |-> VSize(txs[i])])
+      tf == SumS([i \in 1..Len(txs) |-> MFee(D, txs[i])])
+      direct == UNION {pre.dcs[i] : i \in 1..Len(pre.dcs)}
+      ev == DescOf(P, direct)
+      evfees == SumF([x \in TxIds |-> MFee(D, x)], ev)
+      newP == (P \ ev) \cup N
+      last == Len(txs)
+      \* parents of txs[i] for the dust rule: in the package (any position) or in the pool
+      dustpar(i) == {txs[k] : k \in {k \in 1..Len(txs) : TID_[txs[k]] \in INTID_[txs[i]]}} \cup ParentsIn(P, txs[i])
+  IN IF ~pre.ok THEN fail("transaction failed", pre.bad, pre.why)
+     ELSE IF \E i \in 1..Len(txs) : ~PkgTrucOK(P, txs, i) THEN fail("TRUC-violation", 0, "none")
+     \* CheckFeeRate on the package feerate; the failure is reported for the last transaction
+     ELSE IF FeeAt(MinFeeOf(MF), tv) > 0 /\ tf < FeeAt(MinFeeOf(MF), tv) THEN fail("transaction failed", last, "mempool min fee not met")
+     ELSE IF tf < FeeAt(MinRelay, tv) THEN fail("transaction failed", last, "min relay fee not met")
+     \* PackageRBFChecks
+     ELSE IF direct # {} /\ (Len(txs) # 2 \/ ~ChildWithParents(txs)) THEN fail("package RBF failed: package must be 1-parent-1-child", 0, "none")
+     ELSE IF direct # {} /\ \E i \in 1..Len(txs) : ParentsIn(P, txs[i]) # {} THEN fail("package RBF failed: new transaction cannot have mempool ancestors", 0, "none")
+     ELSE IF direct # {} /\ Cardinality(ClustersOf(P, direct)) > MaxReplClusters THEN fail("package RBF failed: too many potential replacements", 0, "none")
+     ELSE IF direct # {} /\ (tf < evfees \/ tf - evfees < FeeAt(IncrRelay, tv)) THEN fail("package RBF failed: insufficient anti-DoS fees", 0, "none")
+     ELSE IF direct # {} /\ ~ProdGT(tf, VSize(txs[1]), MFee(D, txs[1]), tv) THEN fail("package RBF failed: package feerate is less than or equal to parent feerate", 0, "none")
+     ELSE IF direct # {} /\ ~ClusterOK(newP, N) THEN fail("too-large-cluster", 0, "none")
+     ELSE IF direct # {} /\ ~ImprovesDiagramN(P, D, N, ev) THEN fail("package RBF failed: replacement-failed", 0, "none")
+     ELSE IF ~ClusterOK(newP, N) THEN fail("too-large-cluster", 0, "none")
+     ELSE IF STD /\ \E i \in 1..Len(txs) : ~SpendsDustOf(txs[i], dustpar(i))
+          THEN fail("unspent-dust", CHOOSE i \in 1..Len(txs) : ~SpendsDustOf(txs[i], dustpar(i)) /\ \A k \in 1..i - 1 : SpendsDustOf(txs[k], dustpar(k)), "missing-ephemeral-spends")
+     ELSE IF \E i \in 1..Len(txs) : ~ScriptsOK(txs[i])
+          THEN fail("transaction failed", CHOOSE i \in 1..Len(txs) : ~ScriptsOK(txs[i]) /\ \A k \in 1..i - 1 : ScriptsOK(txs[k]), "script-failed")
+     ELSE [why |-> "ok", bad |-> 0, badwhy |-> "none", p |-> newP, ev |-> ev]
+\* ---- AcceptPackage: [why, txr: one result per position, p, et, mf, ev, trims, tight]
+PkgEval(P, ET, U, C, D, MF, pkg, T) ==
+  LET none == [i \in 1..Len(pkg) |-> TR("none", "none")]
+      gate == GateWhy(pkg)
+      pass == PkgPass(pkg, 1, [p |-> P, et |-> ET, ev |-> {}, res |-> <<>>, q |-> <<>>, quit |-> FALSE], U, C, D, MF, T)
+      runm == ~pass.quit /\ pass.q # <<>>
+      \* a single remaining transaction is evaluated on its own once more
+      single == Len(pass.q) = 1
+      sv == Verdict(pass.p, U, C, D, MF, pass.q[1], FALSE)
+      mu == IF single THEN (IF sv.ok THEN [why |-> "ok", bad |-> 0, badwhy |-> "none", p |-> (pass.p \ sv.evict) \cup {pass.q[1]}, ev |-> sv.evict]
+                            ELSE [why |-> "transaction failed", bad |-> 1, badwhy |-> sv.why, p |-> pass.p, ev |-> {}])
+            ELSE MultiEval(pass.p, U, C, D, MF, pass.q)
+      p1 == IF runm THEN mu.p ELSE pass.p
+      et1 == [t \in TxIds |-> IF t \in p1 /\ t \notin pass.p THEN T ELSE pass.et[t]]
+      lim == LimitSize(p1, et1, D, MF, T)
+      inq(t) == runm /\ \E k \in 1..Len(pass.q) : pass.q[k] = t
+      qidx(t) == CHOOSE k \in 1..Len(pass.q) : pass.q[k] = t
+      \* the result AcceptMultipleTransactions (or the second single evaluation) reports for t, if any
+      mres(t) == IF ~inq(t) THEN TR("none", "none")
+                 ELSE IF mu.why = "ok" THEN TR("valid", "ok")
+                 ELSE IF mu.bad = qidx(t) THEN TR("invalid", mu.badwhy) ELSE TR("none", "none")
+      final(i) == LET t == pkg[i] m == mres(t) r == pass.res[i] IN
+                  IF m.k # "none" THEN (IF m.k = "valid" /\ t \notin lim.p THEN TR("invalid", "mempool full") ELSE m)
+                  ELSE IF r.k \in {"valid", "entry", "diffwit"} THEN (IF TWINS_[t] \cap lim.p = {} THEN TR("invalid", "mempool full") ELSE r)
+                  ELSE r
+      txr == [i \in 1..Len(pkg) |-> final(i)]
+      evicted == \E i \in 1..Len(pkg) : txr[i] = TR("invalid", "mempool full")
+      why0 == IF runm THEN mu.why ELSE IF pass.quit THEN "transaction failed" ELSE "ok"
+  IN IF gate # "ok" THEN [why |-> gate, txr |-> none, p |-> P, et |-> ET, mf |-> MF, ev |-> {}, trims |-> <<>>, tight |-> FALSE]
+     ELSE [why |-> IF evicted THEN "transaction failed" ELSE why0, txr |-> txr, p |-> lim.p, et |-> NormT(lim.p, et1), mf |-> lim.mf,
+           ev |-> pass.ev \cup (IF runm THEN mu.ev ELSE {}), trims |-> lim.trims, tight |-> lim.tight]
+
+\* ------------------------------------------------------------------ persistence (node/mempool_persist.cpp)
+NoFile == [saved |-> FALSE, recs |-> <<>>, stray |-> {}, unb |-> {}]
+\* a sequence of plain submissions at time T (the second node's existing entries; Prefill)
+RECURSIVE SubmitFold(_, _, _, _, _, _, _, _)
+SubmitFold(P, ET, U, C, D, MF, seq, T) ==
+  IF seq = <<>> THEN [p |-> P, et |-> ET, mf |-> MF, tight |-> FALSE]
+  ELSE LET t == Head(seq) v == Verdict(P, U, C, D, MF, t, FALSE) IN
+       IF ~v.ok THEN SubmitFold(P, ET, U, C, D, MF, Tail(seq), T)
+       ELSE LET p1 == (P \ v.evict) \cup {t} et1 == [ET EXCEPT ![t] = T] l == LimitSize(p1, et1, D, MF, T)
+                r == SubmitFold(l.p, NormT(l.p, et1), U, C, D, l.mf, Tail(seq), T)
+            IN [r EXCEPT !.tight = @ \/ l.tight]
+\* LoadMempool's loop over the first records of the file: PrioritiseTransaction(delta), then AcceptToMemoryPool with the saved
+\* time unless the entry is expired
+RECURSIVE LoadRecs(_, _, _, _, _, _, _, _)
+LoadRecs(P, ET, U, C, D, MF, recs, T) ==
+  IF recs = <<>> THEN [p |-> P, et |-> ET, d |-> D, mf |-> MF]
+  ELSE LET r == Head(recs)
+           D1 == [D EXCEPT ![TID_[r.t]] = @ + r.d]
+           v == Verdict(P, U, C, D1, MF, r.t, FALSE)
+       IN IF ~(r.time > T - Expiry) \/ ~v.ok THEN LoadRecs(P, ET, U, C, D1, MF, Tail(recs), T)
+          ELSE LET p1 == (P \ v.evict) \cup {r.t} et1 == [ET EXCEPT ![r.t] = r.time] l == LimitSize(p1, et1, D1, MF, T)
+               IN LoadRecs(l.p, NormT(l.p, et1), U, C, D1, l.mf, Tail(recs), T)
+\* how many complete records LoadMempool processes before the damage stops it
+RecsRead(cut, n) == CASE cut.kind \in {"none", "deltas", "unb"} -> n
+                      [] cut.kind = "rec" -> cut.k
+                      [] cut.kind = "count" -> IF cut.k > 0 THEN n ELSE n + cut.k
+                      [] OTHER -> 0                                        \* hdr, badver, ver1, keyflip: nothing is read
+CutFits(cut, F) == LET n == Len(F.recs) IN
+                   /\ cut.kind = "rec" => (cut.k <= n /\ (cut.k = n => cut.sub = "at"))
+                   /\ cut.kind = "deltas" => F.stray # {}
+                   /\ (cut.kind = "unb" /\ cut.sub = "mid") => F.unb # {}
+                   /\ cut.kind = "count" => n + cut.k >= 0
+\* truncations: the file is a strict prefix of what was written
+Truncation(cut) == cut.kind \in {"hdr", "rec", "deltas", "unb"}
+LoadEval(F, U, C, cut, exist, T) ==
+  LET s0 == SubmitFold({}, ZeroF, U, C, ZeroF, NoMF, exist, T)
+      r == LoadRecs(s0.p, s0.et, U, C, ZeroF, s0.mf, SubSeq(F.recs, 1, RecsRead(cut, Len(F.recs))), T)
+      strayd(x) == IF \E s \in F.stray : s.t = x THEN (CHOOSE s \in F.stray : s.t = x).d ELSE 0
+      d2 == IF cut.kind \in {"none", "unb"} THEN [x \in TxIds |-> r.d[x] + strayd(x)] ELSE r.d
+      u2 == IF cut.kind = "none" THEN {t \in r.p : TWINS_[t] \cap F.unb # {}} ELSE {}
+  IN [p |-> r.p, et |-> r.et, d |-> d2, mf |-> r.mf, unb |-> u2, ok |-> cut.kind = "none", existing |-> s0.p]
+
 \* ------------------------------------------------------------------ actions
-Ctr0 == [blk |-> 0, disc |-> 0, reorg |-> 0, prio |-> 0, tick |-> 0, exp |-> 0]
-Init == /\ pool = {} /\ delta = [t \in TxIds |-> 0] /\ etime = [t \in TxIds |-> 0]
-        /\ chain = <<>> /\ utxo = BaseUtxo /\ now = 0 /\ ctr = Ctr0
+Ctr0 == [blk |-> 0, disc |-> 0, reorg |-> 0, prio |-> 0, tick |-> 0, exp |-> 0, pkg |-> 0, unb |-> 0, dump |-> 0, load |-> 0, pre |-> 0]
+Init == /\ pool = {} /\ delta = ZeroF /\ etime = ZeroF
+        /\ chain = <<>> /\ utxo = BaseUtxo /\ now = 0 /\ mf = NoMF /\ unb = {} /\ file = NoFile /\ ctr = Ctr0
         /\ lastAct = <<"init">> /\ lastRes = NoneRes
 
 Submit(t) ==
-  LET v == Verdict(pool, utxo, chain, delta, t, FALSE) IN
+  LET v == Verdict(pool, utxo, chain, delta, mf, t, FALSE) IN
   /\ IF v.ok
      THEN LET p1 == (pool \ v.evict) \cup {t}
               et1 == [etime EXCEPT ![t] = now]
-              p2 == p1 \ ExpireSet(p1, et1, now)           \* LimitMempoolSize after Finalize
-          IN /\ pool' = p2 /\ etime' = NormT(p2, et1)
-             /\ lastRes' = IF t \in p2 THEN v ELSE Res(FALSE, "mempool full", {}, v.dbg)
-     ELSE UNCHANGED <<pool, etime>> /\ lastRes' = v
-  /\ UNCHANGED <<delta, chain, utxo, now, ctr>>
+              l == LimitSize(p1, et1, delta, mf, now)           \* LimitMempoolSize after Finalize
+          IN /\ pool' = l.p /\ etime' = NormT(l.p, et1) /\ mf' = l.mf /\ unb' = unb \cap l.p
+             /\ lastRes' = [(IF t \in l.p THEN v ELSE Res(FALSE, "mempool full", {}, v.dbg)) EXCEPT !.trims = l.trims, !.tight = l.tight]
+     ELSE UNCHANGED <<pool, etime, mf, unb>> /\ lastRes' = v
+  /\ UNCHANGED <<delta, chain, utxo, now, file, ctr>>
   /\ lastAct' = <<"submit", t>>
 
 \* the verdict of Submit from the same state (the replaced list is only filled in when the replacement is carried out)
-TestVerdict(t) == LET v == Verdict(pool, utxo, chain, delta, t, FALSE) IN Res(v.ok, v.why, {}, v.dbg)
+TestVerdict(t) == LET v == Verdict(pool, utxo, chain, delta, mf, t, FALSE) IN Res(v.ok, v.why, {}, v.dbg)
 TestAccept(t) == /\ UNCHANGED <<state, ctr>> /\ lastAct' = <<"test", t>> /\ lastRes' = TestVerdict(t)
+
+SubmitPackage(pkg) ==
+  /\ ctr.pkg < EXT.maxpkg
+  /\ LET r == PkgEval(pool, etime, utxo, chain, delta, mf, pkg, now) IN
+     /\ pool' = r.p /\ etime' = r.et /\ mf' = r.mf /\ unb' = unb \cap r.p
+     /\ lastRes' = [ok |-> r.why = "ok", why |-> r.why, evict |-> r.ev, pure |-> TRUE, dbg |-> NoDbg, trims |-> r.trims, tight |-> r.tight, txr |-> r.txr]
+  /\ ctr' = [ctr EXCEPT !.pkg = @ + 1]
+  /\ UNCHANGED <<delta, chain, utxo, now, file>>
+  /\ lastAct' = <<"pkg", pkg>>
 
 Prioritise(t, d) ==
   /\ ctr.prio < MaxPrio
-  /\ delta' = [delta EXCEPT ![t] = @ + d] /\ ctr' = [ctr EXCEPT !.prio = @ + 1]
-  /\ UNCHANGED <<pool, etime, chain, utxo, now>>
+  /\ delta' = [delta EXCEPT ![TID_[t]] = @ + d] /\ ctr' = [ctr EXCEPT !.prio = @ + 1]
+  /\ UNCHANGED <<pool, etime, chain, utxo, now, mf, unb, file>>
   /\ lastAct' = <<"prio", t, d>> /\ lastRes' = NoneRes
+
+MarkUnb(t) ==
+  /\ ctr.unb < EXT.maxunb
+  /\ unb' = unb \cup (TWINS_[t] \cap pool) /\ ctr' = [ctr EXCEPT !.unb = @ + 1]
+  /\ UNCHANGED <<pool, delta, etime, chain, utxo, now, mf, file>>
+  /\ lastAct' = <<"unb", t>> /\ lastRes' = NoneRes
 
 Mine(L, dt) ==
   /\ ctr.blk < MaxBlocks /\ BlockOK(chain, utxo, L)
   /\ LET r == RmBlock(pool, delta, L) IN
-     /\ pool' = r.p /\ delta' = r.d /\ etime' = NormT(r.p, etime)
+     /\ pool' = r.p /\ delta' = r.d /\ etime' = NormT(r.p, etime) /\ unb' = unb \cap r.p
      /\ chain' = Append(chain, [txs |-> L, dt |-> dt]) /\ utxo' = Connect(chain, utxo, L)
-  /\ ctr' = [ctr EXCEPT !.blk = @ + 1] /\ UNCHANGED now
+  /\ mf' = [mf EXCEPT !.b = TRUE]
+  /\ ctr' = [ctr EXCEPT !.blk = @ + 1] /\ UNCHANGED <<now, file>>
   /\ lastAct' = <<"mine", L, dt>> /\ lastRes' = NoneRes
 
 \* (not after a Reorg: the node would then return to the block the reorg had displaced, which is equal-work and older)
@@ -383,8 +708,8 @@ Disconnect ==
   /\ ctr.disc < MaxDisc /\ chain # <<>> /\ ctr.reorg = 0
   /\ LET C1 == Front(chain) U1 == Replay(C1)
          r == AfterReorg(pool, etime, U1, C1, delta, chain[Len(chain)].txs, now)
-     IN /\ chain' = C1 /\ utxo' = U1 /\ pool' = r.p /\ etime' = r.et
-  /\ ctr' = [ctr EXCEPT !.disc = @ + 1] /\ UNCHANGED <<delta, now>>
+     IN /\ chain' = C1 /\ utxo' = U1 /\ pool' = r.p /\ etime' = r.et /\ unb' = unb \cap r.p
+  /\ ctr' = [ctr EXCEPT !.disc = @ + 1] /\ UNCHANGED <<delta, now, mf, file>>
   /\ lastAct' = <<"disconnect">> /\ lastRes' = NoneRes
 
 InSeq(s, x) == \E i \in 1..Len(s) : s[i] = x
@@ -398,31 +723,70 @@ Reorg(LA, LB, dt) ==
          q == SelectNotIn(chain[Len(chain)].txs, LA, LB)
          r == AfterReorg(rB.p, NormT(rB.p, etime), UB, CB, rB.d, q, now)
      IN /\ BlockOK(C0, U0, LA) /\ BlockOK(CA, UA, LB)
-        /\ chain' = CB /\ utxo' = UB /\ pool' = r.p /\ etime' = r.et /\ delta' = rB.d
-  /\ ctr' = [ctr EXCEPT !.reorg = @ + 1] /\ UNCHANGED now
+        /\ chain' = CB /\ utxo' = UB /\ pool' = r.p /\ etime' = r.et /\ delta' = rB.d /\ unb' = unb \cap r.p
+  /\ mf' = [mf EXCEPT !.b = TRUE]
+  /\ ctr' = [ctr EXCEPT !.reorg = @ + 1] /\ UNCHANGED <<now, file>>
   /\ lastAct' = <<"reorg", LA, LB, dt>> /\ lastRes' = NoneRes
 
+\* (the decay of the rolling minimum feerate with time is not modelled: the clock stands still once something was trimmed)
 Tick(d) ==
-  /\ ctr.tick < MaxTicks /\ now' = now + d /\ ctr' = [ctr EXCEPT !.tick = @ + 1]
-  /\ UNCHANGED <<pool, delta, etime, chain, utxo>>
+  /\ ctr.tick < MaxTicks /\ mf.r = 0 /\ now' = now + d /\ ctr' = [ctr EXCEPT !.tick = @ + 1]
+  /\ UNCHANGED <<pool, delta, etime, chain, utxo, mf, unb, file>>
   /\ lastAct' = <<"tick", d>> /\ lastRes' = NoneRes
 
 ExpireCall ==
   /\ ctr.exp < MaxExpire
-  /\ LET p2 == pool \ ExpireSet(pool, etime, now) IN pool' = p2 /\ etime' = NormT(p2, etime)
-  /\ ctr' = [ctr EXCEPT !.exp = @ + 1] /\ UNCHANGED <<delta, chain, utxo, now>>
+  /\ LET p2 == pool \ ExpireSet(pool, etime, now) IN pool' = p2 /\ etime' = NormT(p2, etime) /\ unb' = unb \cap p2
+  /\ ctr' = [ctr EXCEPT !.exp = @ + 1] /\ UNCHANGED <<delta, chain, utxo, now, mf, file>>
   /\ lastAct' = <<"expire">> /\ lastRes' = NoneRes
 
-Next == \/ \E t \in SUBMITSET_ : Submit(t)
-        \/ \E t \in TESTSET_ : TestAccept(t)
-        \/ \E p \in PRIOSET_ : Prioritise(p[1], p[2])
-        \/ \E L \in LISTS_, dt \in DTS_ : Mine(L, dt)
-        \/ Disconnect
-        \/ \E pr \in REORGS_, dt \in DTS_ : Reorg(pr[1], pr[2], dt)
-        \/ \E d \in TICKS_ : Tick(d)
-        \/ ExpireCall
-Spec == Init /\ [][Next]_vars
+\* DumpMempool: entries in main order (parents before children) with entry time and fee delta, prioritisations of transactions outside the pool, unbroadcast set
+Dump ==
+  /\ ctr.dump < EXT.maxdump
+  /\ LET ord == MainOrder(pool, delta) IN
+     file' = [saved |-> TRUE, recs |-> [i \in 1..Len(ord) |-> [t |-> ord[i], time |-> etime[ord[i]], d |-> delta[TID_[ord[i]]]]],
+              stray |-> {[t |-> x, d |-> delta[x]] : x \in {x \in TxIds : delta[x] # 0 /\ TWINS_[x] \cap pool = {}}}, unb |-> unb]
+  /\ ctr' = [ctr EXCEPT !.dump = @ + 1] /\ UNCHANGED <<pool, delta, etime, chain, utxo, now, mf, unb>>
+  /\ lastAct' = <<"dump">> /\ lastRes' = Res(TRUE, "ok", {}, NoDbg)
 
+\* a second node on the same chain (empty pool, no prioritisation) submits `exist` and loads the file; the behaviour goes on there
+Load(cut, exist) ==
+  /\ ctr.load < EXT.maxload /\ file.saved /\ CutFits(cut, file)
+  /\ LET r == LoadEval(file, utxo, chain, cut, exist, now) IN
+     /\ pool' = r.p /\ etime' = r.et /\ delta' = r.d /\ mf' = r.mf /\ unb' = r.unb
+     /\ lastRes' = [Res(r.ok, IF r.ok THEN "ok" ELSE "failed", {}, NoDbg) EXCEPT !.pure = TRUE] @@ [existing |-> r.existing]
+  /\ ctr' = [ctr EXCEPT !.load = @ + 1] /\ UNCHANGED <<chain, utxo, now, file>>
+  /\ lastAct' = <<"load", cut, exist>>
+
+Prefill ==
+  /\ LET r == SubmitFold(pool, etime, utxo, chain, delta, mf, EXT.prefill, now) IN
+     /\ pool' = r.p /\ etime' = r.et /\ mf' = r.mf
+     /\ lastRes' = [NoneRes EXCEPT !.tight = r.tight \/ r.p # SeqToSet(EXT.prefill)]
+  /\ ctr' = [ctr EXCEPT !.pre = 1] /\ UNCHANGED <<delta, chain, utxo, now, unb, file>>
+  /\ lastAct' = <<"prefill", EXT.prefill>>
+
+Next == IF EXT.prefill # <<>> /\ ctr.pre = 0 THEN Prefill
+        ELSE \/ \E t \in SUBMITSET_ : Submit(t)
+             \/ \E t \in TESTSET_ : TestAccept(t)
+             \/ \E pkg \in PKGS_ : SubmitPackage(pkg)
+             \/ \E p \in PRIOSET_ : Prioritise(p[1], p[2])
+             \/ \E t \in UNBS_ : MarkUnb(t)
+             \/ \E L \in LISTS_, dt \in DTS_ : Mine(L, dt)
+             \/ Disconnect
+             \/ \E pr \in REORGS_, dt \in DTS_ : Reorg(pr[1], pr[2], dt)
+             \/ \E d \in TICKS_ : Tick(d)
+             \/ ExpireCall
+             \/ Dump
+             \/ \E cut \in CUTS_, ex \in EXISTS_ : Load(cut, ex)
+Spec == Init /\ [][Next]_vars
+\* scenario focus for the persistence configurations (an ACTION_CONSTRAINT): between the dump and the load only the clock moves, and the
+\* history ends with the load, the dump comes after the prioritisations and unbroadcast marks
+PersistFocus == /\ (ctr.dump = 1 /\ ctr.load = 0) => lastAct'[1] \in {"tick", "load"}
+                /\ ctr.load = 0
+                /\ lastAct'[1] = "dump" => (ctr.prio = MaxPrio /\ ctr.unb = EXT.maxunb)      \* the dump comes after the prioritisations and marks
+
+\* quick tier: in addition the clock only moves after the dump
+PersistFocusQ == PersistFocus /\ (ctr.dump = 0 => lastAct'[1] # "tick")
 \* ------------------------------------------------------------------ C22: consistency and next-block validity
 ConsistentIn(P, U) ==
   /\ \A t \in P : InsSet(t) \subseteq DOMAIN U \cup UNION {OutsOf(p) : p \in P \ {t}}      \* inputs unspent or from the pool
@@ -435,6 +799,7 @@ NextBlockValid == NextBlockValidIn(pool, utxo, chain)
 UtxoIsReplay == utxo = Replay(chain)
 Bookkeeping == /\ \A t \in TxIds \ pool : etime[t] = 0
                /\ \A t \in pool : etime[t] <= now
+               /\ unb \subseteq pool
 \* ------------------------------------------------------------------ C26: necessary conditions of every accepted replacement,
 \* stated independently of Verdict's control flow
 ReplacementSound(P, D, t, ev) ==
@@ -452,21 +817,109 @@ ReplacementsSound ==
 \* ------------------------------------------------------------------ C28: test-accept changes nothing and agrees with Submit
 TestAcceptPure == [][lastAct'[1] = "test" => UNCHANGED state]_vars
 \* Submit's answer from the same state; only the post-acceptance LimitMempoolSize step can turn an accepted
-\* transaction into "mempool full" (here: an expired ancestor takes it along)
+\* transaction into "mempool full"
 TestAcceptFaithful ==
   [][lastAct'[1] = "submit" =>
        LET tv == TestVerdict(lastAct'[2]) IN
        \/ (lastRes'.ok = tv.ok /\ lastRes'.why = tv.why)
        \/ (lastRes'.why = "mempool full" /\ tv.ok)]_vars
+\* C28 as stated: the only exemption is a full mempool. The model (like the node) does NOT satisfy this where LimitMempoolSize
+\* expires an ancestor of the new transaction: known finding "testaccept-ignores-expiry-of-ancestor"; props/C28.py looks the
+\* offending transitions up in the emitted graph and confirms them on the node.
+TestAcceptFaithfulAsStated ==
+  [][lastAct'[1] = "submit" =>
+       LET tv == TestVerdict(lastAct'[2]) IN
+       \/ (lastRes'.ok = tv.ok /\ lastRes'.why = tv.why)
+       \/ (lastRes'.why = "mempool full" /\ tv.ok /\ lastRes'.trims # <<>>)]_vars
+
+\* ------------------------------------------------------------------ C27: resource and topology limits
+ClusterLimits == ClusterOK(pool, pool)
+UsageBounded == MAXMEM = 0 \/ Usage(pool) <= MAXMEM
+\* immediately after an eviction for space the minimum feerate is above the feerate of every evicted chunk (exact comparison:
+\* minfee / 1000 > f / vsize)
+MinFeeAboveEvicted ==
+  [][\A i \in 1..Len(lastRes'.trims) : LET c == lastRes'.trims[i] IN ProdGT(MinFeeOf(mf'), VSofW(c.s), c.f, 1000)]_vars
+\* no trim decision was closer to the limit than the margin (else the universe is ill-shaped, not the node wrong)
+NoTightDecision == [][~lastRes'.tight]_vars
+\* TRUC topology, with standardness on and no block disconnected so far
+TrucTopologyIn(P) ==
+  \A t \in P :
+    IF V3(t) THEN /\ Cardinality(ParentsIn(P, t)) <= 1 /\ Cardinality(ChildrenIn(P, t)) <= 1
+                  /\ \A x \in ParentsIn(P, t) \cup ChildrenIn(P, t) : V3(x)
+                  /\ Cardinality(AncOf(P, {t})) <= 2 /\ Cardinality(DescOf(P, {t})) <= 2
+                  /\ VSize(t) <= 10000 /\ (ParentsIn(P, t) # {} => VSize(t) <= 1000)
+    ELSE \A x \in ParentsIn(P, t) \cup ChildrenIn(P, t) : ~V3(x)
+TrucTopology == (STD /\ ctr.disc = 0 /\ ctr.reorg = 0) => TrucTopologyIn(pool)
+\* ephemeral dust: whatever is accepted with a dust output has exactly one and pays nothing, before and after prioritisation;
+\* a pool transaction with an unconfirmed parent that has dust spends the dust
+DustAtAcceptance(P0, D, P1) == \A t \in P1 \ P0 : DustOuts(t) # {} => (Cardinality(DustOuts(t)) = 1 /\ Fee(t) = 0 /\ MFee(D, t) = 0)
+DustZeroFee == [][(STD /\ lastAct'[1] \in {"submit", "pkg"}) => DustAtAcceptance(pool, delta, pool')]_vars
+DustSpentIn(P) == \A c \in P : \A p \in ParentsIn(P, c) : DustOuts(p) \subseteq InsSet(c)
+DustSpent == (STD /\ ctr.disc = 0 /\ ctr.reorg = 0) => DustSpentIn(pool)
+
+\* ------------------------------------------------------------------ C29: packages
+\* a package that is not well formed (or not child-with-parents) is not evaluated: no result for any transaction, nothing changes
+PkgGateOK(pkg, res, P0, P1) == GateWhy(pkg) # "ok" => (~res.ok /\ P1 = P0 /\ \A i \in 1..Len(pkg) : res.txr[i].k = "none")
+\* no package transaction is in the pool while one of its in-package parents is in neither the pool nor the UTXO set
+PkgNoDangling(pkg, P1, U1) ==
+  \A i \in 1..Len(pkg) : pkg[i] \in P1 =>
+     \A j \in 1..NIn(pkg[i]) : (\E k \in 1..Len(pkg) : TID_[pkg[k]] = InOp(pkg[i], j)[1]) =>
+        (TW(InOp(pkg[i], j)[1]) \cap P1 # {} \/ InOp(pkg[i], j) \in DOMAIN U1)
+\* each reported result matches the final membership (by txid for the different-witness result)
+PkgResultsMatch(pkg, res, P0, P1) ==
+  \A i \in 1..Len(pkg) : LET t == pkg[i] k == res.txr[i].k IN
+     /\ k \in {"valid", "entry"} => t \in P1
+     /\ k = "diffwit" => (t \notin P1 /\ TWINS_[t] \cap P1 # {})
+     /\ k = "invalid" => t \notin P1
+     /\ k = "none" => (t \in P1 => t \in P0)
+     /\ k = "entry" => t \in P0
+PackagesSound ==
+  [][lastAct'[1] = "pkg" => /\ PkgGateOK(lastAct'[2], lastRes', pool, pool')
+                            /\ PkgNoDangling(lastAct'[2], pool', utxo')
+                            /\ PkgResultsMatch(lastAct'[2], lastRes', pool, pool')]_vars
+
+\* ------------------------------------------------------------------ C55: dump and reload
+\* what a complete, undamaged load owes: every saved entry that is in the pool afterwards has its saved time, fee delta and
+\* unbroadcast mark; no unexpired saved entry that Submit would accept in the resulting state is missing; the saved
+\* prioritisations of absent transactions are there
+RoundTripIn(F, P1, ET1, D1, UNB1, U, C, MF1, T, existing) ==
+  /\ \A i \in 1..Len(F.recs) : LET r == F.recs[i] IN
+        /\ (r.t \in P1 /\ r.t \notin existing) => (ET1[r.t] = r.time /\ D1[TID_[r.t]] = r.d /\ (r.t \in UNB1 <=> r.t \in F.unb))
+        /\ (r.t \notin P1 /\ r.time > T - Expiry) => ~Verdict(P1, U, C, D1, MF1, r.t, FALSE).ok
+  /\ \A s \in F.stray : D1[s.t] = s.d
+\* a damaged file: existing entries stay, and what was added is a part of the saved entries that Submit accepts one after the
+\* other in saved order
+RECURSIVE AcceptableInOrder(_, _, _, _, _, _, _, _)
+AcceptableInOrder(P, U, C, D, MF, recs, P1, T) ==
+  IF recs = <<>> THEN TRUE
+  ELSE LET r == Head(recs) D1 == [D EXCEPT ![TID_[r.t]] = @ + r.d] IN
+       IF r.t \notin P1 \/ r.t \in P THEN AcceptableInOrder(P, U, C, D1, MF, Tail(recs), P1, T)
+       ELSE LET v == Verdict(P, U, C, D1, MF, r.t, FALSE) IN
+            v.ok /\ AcceptableInOrder((P \ v.evict) \cup {r.t}, U, C, D1, MF, Tail(recs), P1, T)
+LoadSafeIn(F, existing, P1, U, C, T) ==
+  /\ existing \subseteq P1
+  /\ P1 \ existing \subseteq {F.recs[i].t : i \in 1..Len(F.recs)}
+  /\ AcceptableInOrder(existing, U, C, ZeroF, NoMF, F.recs, P1, T)
+LoadsSound ==
+  [][lastAct'[1] = "load" =>
+       LET cut == lastAct'[2] IN
+       /\ Truncation(cut) => ~lastRes'.ok
+       /\ cut.kind = "none" => (lastRes'.ok /\ RoundTripIn(file, pool', etime', delta', unb', utxo, chain, mf', now, lastRes'.existing))
+       /\ cut.kind # "none" => LoadSafeIn(file, lastRes'.existing, pool', utxo, chain, now)]_vars
 
 \* ------------------------------------------------------------------ emission
 UtxoList(V) == {[t |-> o[1], i |-> o[2], v |-> V[o].v, h |-> V[o].h, cb |-> V[o].cb] : o \in DOMAIN V}
 Entry(P, D, t) == [t |-> t, fee |-> Fee(t), mfee |-> MFee(D, t), vsize |-> VSize(t),
                    parents |-> ParentsIn(P, t), children |-> ChildrenIn(P, t)]
-ObsOf(P, D, U, C) == [pool |-> P, entries |-> {Entry(P, D, t) : t \in P}, deltas |-> {[t |-> t, d |-> D[t]] : t \in {x \in TxIds : D[x] # 0}},
+ObsOf(P, D, U, C, ET, MF, UNB) ==
+                     [pool |-> P, entries |-> {Entry(P, D, t) : t \in P}, deltas |-> {[t |-> t, d |-> D[t]] : t \in {x \in TxIds : D[x] # 0}},
                       tsize |-> SumF([x \in TxIds |-> VSize(x)], P), tfee |-> SumF([x \in TxIds |-> Fee(x)], P),
-                      height |-> Height(C), utxo |-> UtxoList(U)]
-Model == [pool |-> pool, delta |-> delta, etime |-> etime, chain |-> chain, now |-> now, ctr |-> ctr]
-Proj == [model |-> Model, obs |-> ObsOf(pool, delta, utxo, chain)]
-Emit == VFEdgeK(View0, (IF TLCGet("level") = 1 THEN Proj ELSE [model |-> 0]), lastAct', lastRes', View0', Proj')
+                      height |-> Height(C), utxo |-> UtxoList(U),
+                      minfee |-> MinFeeOf(MF), unb |-> UNB, times |-> {[t |-> t, time |-> ET[t]] : t \in P}]
+Model == [pool |-> pool, delta |-> delta, etime |-> etime, chain |-> chain, now |-> now, mf |-> mf, unb |-> unb, file |-> file, ctr |-> ctr]
+\* the node options this configuration stands for (compared by the driver with the options the node was started with)
+NodeOpts == [minrelay |-> MinRelay, incr |-> IncrRelay, expiry |-> Expiry, maxrepl |-> MaxReplClusters, maxcluster |-> MaxClusterCount,
+             std |-> EXT.std, maxclsize |-> EXT.maxclsize, maxmempool |-> EXT.maxmempool]
+Proj == [model |-> Model, obs |-> ObsOf(pool, delta, utxo, chain, etime, mf, unb)]
+Emit == VFEdgeK(View0, (IF TLCGet("level") = 1 THEN Proj @@ [opts |-> NodeOpts] ELSE [model |-> 0]), lastAct', lastRes', View0', Proj')
 ====
